@@ -78,7 +78,7 @@ func Run(t *testing.T, id, level string, body func(c *Ctx)) {
 		budget, _ = strconv.Atoi(s)
 	}
 	if budget == 0 {
-		budget = Pick(c, 240, 1500)
+		budget = Pick(c, 240, 900)
 	}
 	c.deadline = c.start.Add(time.Duration(budget) * time.Second)
 	c.loadKnown()
